@@ -323,7 +323,9 @@ def run_json(c):
             out["tamper"].append([label, "same" if same else "DIFFERENT"])
         else:
             out["tamper"].append([label, "error", r["error"]])
-    members = ["protected", "iv", "ciphertext", "tag"] + (["aad"] if aad is not None else [])
+    members = [m for m in ["protected", "iv", "ciphertext", "tag"] + (["aad"] if aad is not None else []) if m in obj]
+    if aad is not None and "aad" not in obj:
+        out["aad_member"] = "absent although AAD was given"
     for who in sorted({0, nrec - 1}):
         for m in members:
             raw = b64d(obj[m])
@@ -343,11 +345,11 @@ def run_json(c):
         o = copy.deepcopy(obj); o["protected"] = b64e(json.dumps(hj, sort_keys=True, indent=1).encode())
         if o["protected"] != obj["protected"]:
             attempt(f"r{who}/protected:reserialized", o, ks[who][1])
-        if aad is not None:
+        if aad is not None and "aad" in obj:
             o = copy.deepcopy(obj); o["aad"] = obj["aad"] + "="          # same octets, other text
             attempt(f"r{who}/aad:padded-text", o, ks[who][1])
         if aad is not None:
-            o = copy.deepcopy(obj); del o["aad"]
+            o = copy.deepcopy(obj); o.pop("aad", None)
             attempt(f"r{who}/aad:removed", o, ks[who][1])
         else:
             o = copy.deepcopy(obj); o["aad"] = b64e(b"injected")
